@@ -269,7 +269,101 @@ func runIterPop(p *core.Prog) *core.Result {
 		}
 	}
 	res.Count("popping_instructions", n)
+	// an iterator whose next() failed (threw, returned a non-object, ...) is done: it must not be
+	// closed. Every instruction that advances the top iterator with iteratorRecord.step() takes the
+	// record off vm.iterStack on the failure edge before it throws, or the unwinder's restoreStacks
+	// calls return() on it (seed C08/i).
+	step, err := p.GojaMethod("iteratorRecord", "step")
+	if err != nil {
+		return res.Fail(err)
+	}
+	vmThrow, err := p.GojaMethod("vm", "throw")
+	if err != nil {
+		return res.Fail(err)
+	}
+	nStep := 0
+	for _, f := range p.Funcs {
+		if f.Name() != "exec" || f.Signature.Recv() == nil || f.Parent() != nil {
+			continue
+		}
+		for _, sc := range core.CallsIn(f, step) {
+			call, ok := sc.(*ssa.Call)
+			if !ok {
+				continue
+			}
+			nStep++
+			key := fmt.Sprintf("%s:failed step() leaves the iterator stack before the throw", core.FuncName(f))
+			// throws that depend on the step's exception result
+			var exVal ssa.Value
+			for _, r := range core.Referrers(call) {
+				if ex, ok := r.(*ssa.Extract); ok && ex.Index == 1 {
+					exVal = ex
+				}
+			}
+			throws := core.CallsIn(f, vmThrow)
+			checked := 0
+			bad := ""
+			for _, t := range throws {
+				ti := t.(ssa.Instruction)
+				onFailure := false
+				for _, cp := range core.ControllingConds(ti.Block()) {
+					if x, nonNil, ok := core.IsNilCompare(cp.Cond); ok && cp.Pol == nonNil && exVal != nil && phiIncludes(x, exVal) {
+						onFailure = true
+					}
+				}
+				if !onFailure {
+					continue
+				}
+				checked++
+				popped := false
+				for _, w := range p.FieldWrites(fIter) {
+					if w.Fn == f && w.Kind == "store" && core.InstrDominates(w.Instr, ti) {
+						if sl, ok := w.Val.(*ssa.Slice); ok && sl.High != nil {
+							// the pop itself must be on the failure edge or dominate the step's failure test
+							popped = true
+						}
+					}
+				}
+				if !popped {
+					bad = p.Pos(ti.Pos())
+				}
+			}
+			switch {
+			case bad != "":
+				res.Bad(key, bad, "the exception of a failed next() is thrown while the iterator's record is still on vm.iterStack: unwinding calls return() on an iterator that is already done, before the enclosing finally blocks run")
+			case checked == 0:
+				res.Bad(key, p.Pos(call.Pos()), "no throw on the failure edge of step() found: the exception of next() is dropped")
+			default:
+				res.OK(key, p.Pos(call.Pos()), "record removed before vm.throw on the failure edge")
+			}
+		}
+	}
+	res.Count("instructions advancing an iterator", nStep)
 	return res
+}
+
+// phiIncludes: v is x or a phi that has x among its (transitive) edges.
+func phiIncludes(v, x ssa.Value) bool {
+	seen := map[ssa.Value]bool{}
+	var rec func(v ssa.Value) bool
+	rec = func(v ssa.Value) bool {
+		if v == x {
+			return true
+		}
+		if seen[v] {
+			return false
+		}
+		seen[v] = true
+		if ph, ok := v.(*ssa.Phi); ok {
+			for _, e := range ph.Edges {
+				if rec(e) {
+					return true
+				}
+			}
+		}
+		return false
+	}
+	return rec(v)
 }
 
 // exceptionContained: every call of f that may run script is made inside a closure handed to
@@ -570,6 +664,83 @@ func runFinallyEnter(p *core.Prog) *core.Result {
 			}
 			res.Bad(key, pos, "the finally block is entered (finallyPos disarmed) while the frame's catchPos may still be armed: an exception thrown inside the finally block is caught by the statement's own catch clause and the finally block runs twice")
 		})
+	}
+	return res
+}
+
+// R-CLOSEORDER (C08 "innermost to outermost"): when an exception (or generator.return()) unwinds
+// through several open iterators of one try region, they are closed from the top of vm.iterStack
+// downward - the loop that walks the tail of the iterator stack and closes each record steps its
+// index downward. (With several throwing return() methods the order also decides which error wins.)
+var CloseOrder = &core.Rule{Name: "R-CLOSEORDER", Run: runCloseOrder,
+	Doc: "the loop of vm.restoreStacks that closes the records of the iterator-stack tail steps its index downward (innermost iterator first)"}
+
+func runCloseOrder(p *core.Prog) *core.Result {
+	res := core.NewResult("R-CLOSEORDER", 1)
+	fn, err := p.GojaMethod("vm", "restoreStacks")
+	if err != nil {
+		return res.Fail(err)
+	}
+	fIter, err := p.Field(core.GojaPath, "vm", "iterStack")
+	if err != nil {
+		return res.Fail(err)
+	}
+	fromIterStack := func(v ssa.Value) bool {
+		for i := 0; i < 4; i++ {
+			switch x := v.(type) {
+			case *ssa.Slice:
+				v = x.X
+				continue
+			case *ssa.UnOp:
+				if x.Op == token.MUL && core.FieldOf(x.X) == fIter {
+					return true
+				}
+			}
+			break
+		}
+		return false
+	}
+	n := 0
+	core.AllInstrs(fn, func(in ssa.Instruction) {
+		ia, ok := in.(*ssa.IndexAddr)
+		if !ok || !fromIterStack(ia.X) {
+			return
+		}
+		ph, ok := ia.Index.(*ssa.Phi)
+		if !ok {
+			// `for i := range s` is rotated: the index is phi+1 and the phi's back edge is that sum
+			if bo, isBin := ia.Index.(*ssa.BinOp); isBin {
+				if p2, isPhi := bo.X.(*ssa.Phi); isPhi {
+					ph, ok = p2, true
+				}
+			}
+			if !ok {
+				return
+			}
+		}
+		// the value on the back edge
+		for _, e := range ph.Edges {
+			bo, ok := e.(*ssa.BinOp)
+			if !ok || (bo.X != ph && bo.Y != ph) {
+				continue
+			}
+			k, isConst := core.IntConst(bo.Y)
+			if !isConst {
+				continue
+			}
+			n++
+			key := fmt.Sprintf("(*vm).restoreStacks:iterators closed from the top down#%d", n)
+			down := (bo.Op == token.SUB && k > 0) || (bo.Op == token.ADD && k < 0)
+			if down {
+				res.OK(key, p.Pos(ia.Pos()), "index decreases")
+			} else {
+				res.Bad(key, p.Pos(ia.Pos()), "the records of the iterator-stack tail are visited with an increasing index: outer iterators are closed before inner ones")
+			}
+			return
+		}
+	})
+	if n == 0 {
+		res.Bad("(*vm).restoreStacks:iterators closed from the top down", p.Pos(fn.Pos()), "no index loop over the tail of vm.iterStack found in restoreStacks")
 	}
 	return res
 }
